@@ -70,6 +70,34 @@ class World(object):
     # ------------------------------------------------------------------------------------------
     # receiver resolution
     # ------------------------------------------------------------------------------------------
+    def borrowed_local(self, body, op):
+        """The local an operand ultimately borrows (through `&`, reborrows and deref calls), without
+        following moves: `&*deref(&v)` -> v."""
+        pl = place_of(op)
+        for _ in range(16):
+            if pl is None:
+                return None
+            if any(isinstance(e, dict) and "f" in e for e in pl["p"]):
+                return None
+            defs = body.assignments().get(pl["l"], [])
+            if len(defs) != 1:
+                return pl["l"]
+            bb, j, rv = defs[0]
+            if j == "term":
+                if (term_path(rv) or "").split("::")[-1] in ("deref", "deref_mut", "as_ref", "as_mut", "as_slice",
+                                                             "borrow", "borrow_mut") and rv["args"]:
+                    pl = place_of(rv["args"][0])
+                    continue
+                return pl["l"]
+            if rv["k"] in ("ref", "rawptr"):
+                pl = rv["place"]
+                continue
+            if rv["k"] == "use" and "copy" in rv["op"] and self.prog.types[body.locals[pl["l"]]].get("k") == "ref":
+                pl = rv["op"]["copy"]
+                continue
+            return pl["l"]
+        return None
+
     def root_place(self, body, op, depth=0):
         """Follows `_x = &mut P` / `_x = move _y` / deref(...) chains of a receiver operand back to
         the place it ultimately designates. Returns the place dict (or None)."""
